@@ -1797,8 +1797,11 @@ class Food(UnitConversions):
             # Check if all macronutrients are greater than zero using numpy's all() function
             return (
                 (np.array(self.kcals) > 0).all()
-                and (np.array(self.fat) > 0).all()
-                and (np.array(self.protein) > 0).all()
+                and ((np.array(self.fat) > 0).all() or self.conversions.exclude_fat)
+                and (
+                    (np.array(self.protein) > 0).all()
+                    or self.conversions.exclude_protein
+                )
             )
 
         # Check if all macronutrients are greater than zero
